@@ -67,27 +67,24 @@ func runSolverCtx(parent context.Context, name, file string, timeoutS int, seed 
 
 // discharge races the solvers on the full query and, when given, on its cone-of-influence slice:
 // "unsat" from any run wins, "sat" counts only on the full query.
-func discharge(file, sliced string, order []string, timeoutS int, seed int) solveResult {
+func discharge(file string, sliced []string, order []string, timeoutS int, seed int) solveResult {
 	start := time.Now()
 	ctx, cancel := context.WithCancel(context.Background())
 	defer cancel()
-	n := len(order)
-	if sliced != "" {
-		n++
-	}
+	n := len(order) + len(sliced)
 	ch := make(chan solveResult, n)
 	for _, s := range order {
 		go func(s string) { ch <- runSolverCtx(ctx, s, file, timeoutS, seed) }(s)
 	}
-	if sliced != "" {
-		go func() {
-			r := runSolverCtx(ctx, order[0], sliced, timeoutS, seed)
+	for i, sf := range sliced {
+		go func(i int, sf string) {
+			r := runSolverCtx(ctx, order[0], sf, timeoutS, seed)
 			if r.status == "sat" {
 				r.status = "unknown" // a model of the slice may violate dropped facts
 			}
-			r.solver += "/slice"
+			r.solver += fmt.Sprintf("/slice%d", i+1)
 			ch <- r
-		}()
+		}(i, sf)
 	}
 	var notes []string
 	var last solveResult
@@ -133,7 +130,8 @@ func (E *Engine) buildQuery(o *Obligation, slice bool) string {
 	return E.buildQueryLevel(o, map[bool]int{false: 0, true: 1}[slice])
 }
 
-// level 0: all facts; 1: cone of influence of goal and path condition; 2: cone of influence of the goal only.
+// level 0: all facts; 1: cone of influence of goal and path condition; 2: cone of influence of the goal only;
+// 3: only facts that share a symbol with the goal directly (one round).
 func (E *Engine) buildQueryLevel(o *Obligation, level int) string {
 	slice := level > 0
 	tb := E.tb
@@ -153,15 +151,27 @@ func (E *Engine) buildQueryLevel(o *Obligation, level int) string {
 			addSyms(o.Reach)
 		}
 		inc := make([]bool, len(facts))
+		rounds := 0
 		for changed := true; changed; {
 			changed = false
+			rounds++
+			if level == 3 && rounds > 1 {
+				break
+			}
+			frozen := rel
+			if level == 3 {
+				frozen = map[string]bool{}
+				for k := range rel {
+					frozen[k] = true
+				}
+			}
 			for i, f := range facts {
 				if inc[i] {
 					continue
 				}
 				hit := false
 				for s := range tb.Syms(f.body) {
-					if rel[s] {
+					if frozen[s] {
 						hit = true
 						break
 					}
@@ -218,6 +228,16 @@ func (E *Engine) negGoal(g *Term) []*Term {
 		for _, d := range g.args {
 			out = append(out, E.negGoal(d)...)
 		}
+	case g.op == "not" && g.args[0].op == "and":
+		for _, c := range g.args[0].args {
+			if c.op == "not" {
+				out = append(out, E.negGoal(c.args[0])...)
+			} else {
+				out = append(out, c)
+			}
+		}
+	case g.op == "not":
+		out = []*Term{g.args[0]}
 	default:
 		out = []*Term{tb.Not(g)}
 	}
@@ -235,7 +255,7 @@ func solveAll(E *Engine, obls []*Obligation, opt solveOpts) {
 	type job struct {
 		o      *Obligation
 		file   string
-		sliced string
+		sliced []string
 	}
 	var jobs []job
 	for i, o := range obls {
@@ -248,11 +268,13 @@ func solveAll(E *Engine, obls []*Obligation, opt solveOpts) {
 			continue
 		}
 		f := filepath.Join(opt.dir, fmt.Sprintf("q%04d_%s.smt2", i, sanitizeFile(o.Name)))
-		sf := ""
+		var sf []string
 		if !o.Cover && !opt.noSlice {
-			sf = filepath.Join(opt.dir, fmt.Sprintf("q%04d_%s.sliced.smt2", i, sanitizeFile(o.Name)))
-			if err := os.WriteFile(sf, []byte(E.buildQueryLevel(o, 2)), 0o644); err != nil {
-				sf = ""
+			for _, lv := range []int{3, 2} {
+				name := filepath.Join(opt.dir, fmt.Sprintf("q%04d_%s.slice%d.smt2", i, sanitizeFile(o.Name), lv))
+				if err := os.WriteFile(name, []byte(E.buildQueryLevel(o, lv)), 0o644); err == nil {
+					sf = append(sf, name)
+				}
 			}
 		}
 		if err := os.WriteFile(f, []byte(E.buildQuery(o, false)), 0o644); err != nil {
@@ -278,7 +300,7 @@ func solveAll(E *Engine, obls []*Obligation, opt solveOpts) {
 				order := opt.order
 				if j.o.Cover {
 					// reachability covers: only a refutation matters; keep them cheap
-					to = 3
+					to = 2
 					order = order[:1]
 				}
 				r := discharge(j.file, j.sliced, order, to, opt.seed)
